@@ -3,10 +3,10 @@
   uses, with live arguments (ids that are the current id of a live slot), leads from `a` to `a'`;
   the sibling insertions additionally require what indextree itself does not check (the reference
   node has a parent; the inserted node is not the reference node or one of its ancestors), and
-  `remove` that the node has a parent or no children.  Every such call keeps the pointer
-  invariant and never lowers the magnitude of a stamp.
+  `remove` that the node has a parent or no children; `remove_subtree` needs nothing more.  Every
+  such call keeps the pointer invariant and never lowers the magnitude of a stamp.
 -/
-import XotModel.Lemmas.ArenaStamp
+import XotModel.Lemmas.ArenaRmsTop
 
 namespace XotModel
 namespace Arena
@@ -35,6 +35,7 @@ inductive Call (a : Arena) : Arena → Prop where
       HasParent a ref → ¬ IsAncestorOrSelf a x ref → checkedInsertBefore a ref x = .done a' res → Call a a'
   | remove (x : NodeId) (a' : Arena) : LiveId a x → (HasParent a x ∨ Childless a x) →
       Arena.remove a x = .done a' () → Call a a'
+  | removeSubtree (x : NodeId) (a' : Arena) : LiveId a x → Arena.removeSubtree a x = .done a' () → Call a a'
 
 /-- Histories. -/
 inductive Steps : Arena → Arena → Prop where
@@ -158,6 +159,11 @@ theorem Call.rep {a a' : Arena} {g : Shape} (r : Rep a g) (c : Call a a') :
           obtain ⟨a5, a2, hM5, r5, h2, ok, r2⟩ := r.remove_inner _ p L R c1 ck hx.2.1 hp hkp hh hl
           rw [h2] at h; cases h
           exact ⟨⟨_, r2⟩, hM5.stampMono.trans (ok.stampMono r5 ((hM5.live _).mpr hx.2.1))⟩
+  | removeSubtree x a' hx h =>
+    rw [hx.eq] at h
+    obtain ⟨a2, l, h2, ok⟩ := r.removeSubtree _ hx.2.1
+    rw [h2] at h; cases h
+    exact ⟨⟨_, ok.rep⟩, ok.mono⟩
 
 theorem Steps.wf {a a' : Arena} (h : Steps a a') (w : Wf a) : Wf a' ∧ StampMono a a' := by
   induction h with
@@ -193,6 +199,29 @@ theorem Rep.remove_gone {a a' : Arena} {g : Shape} (r : Rep a g) (x : NodeId) (h
         rw [h2] at h; cases h
         have := ok.gone ((hM5.live _).mpr hx.2.1) (by rw [hM5.idAt]; exact hlt)
         rw [hM5.idAt] at this; exact this
+
+/-- The descendants of `i` are the same before and after `i` is detached. -/
+theorem Rep.reach_detach_iff {a : Arena} {g : Shape} (r : Rep a g) (i u : Nat) :
+    Reach (g.detach i).par u i ↔ Reach g.par u i := by
+  constructor
+  · exact Reach.mono (Shape.detach_par_le g i)
+  · intro h
+    induction h with
+    | refl => exact .refl _
+    | @step c q d hc hr ih =>
+      have hci : c ≠ d := by
+        intro e; subst e
+        exact r.acyclic c q hc hr
+      exact .step (by rw [Shape.detach_par_ne g d c hci]; exact hc) ih
+
+/-- `remove_subtree` makes every id of the subtree `Gone` (stamps below 32767). -/
+theorem Rep.removeSubtree_gone {a a' : Arena} {g : Shape} (r : Rep a g) (x : NodeId) (hx : LiveId a x)
+    (h : Arena.removeSubtree a x = .done a' ()) (u : Nat) (hu : Reach g.par u x.index0)
+    (hlt : (a.idAt u).stamp < 32767) : Gone a' (a.idAt u) := by
+  rw [hx.eq] at h
+  obtain ⟨a2, l, h2, ok⟩ := r.removeSubtree _ hx.2.1
+  rw [h2] at h; cases h
+  exact ok.gone u ((ok.mem u).mpr ((r.reach_detach_iff _ u).mpr hu)) hlt
 
 end Arena
 end XotModel
